@@ -106,13 +106,14 @@ def one_add_noise(cls_name, model, x, sigma, clip, secure, gen, rank=0):
         from opacus.utils.fast_gradient_clipping_utils import DPLossFastGradientClipping
         gsm = GradSampleModuleFastGradientClipping(model, max_grad_norm=clip, use_ghost_clipping=True)
         opt = DPOptimizerFastGradientClipping(inner, max_grad_norm=clip, **kw)
-    elif cls_name == "ddp":
+    elif cls_name in ("ddp", "ddpsimple"):
         import torch.distributed as dist
+        from opacus.optimizers.ddp_perlayeroptimizer import SimpleDistributedPerLayerOptimizer
         old = (dist.get_rank, dist.get_world_size)
         dist.get_rank, dist.get_world_size = (lambda *a, **k: rank), (lambda *a, **k: 3)
         try:
             gsm = GradSampleModule(model)
-            opt = DistributedDPOptimizer(inner, max_grad_norm=clip, **kw)
+            opt = (DistributedDPOptimizer if cls_name == "ddp" else SimpleDistributedPerLayerOptimizer)(inner, max_grad_norm=clip, **kw)
         finally:
             dist.get_rank, dist.get_world_size = old
     else:
@@ -158,30 +159,32 @@ def expected_value_check(calls, info, secure, sigma_clip_zero):
 
 
 def request_cases(ctx):
-    classes = ["flat", "flat", "perlayer", "ghost", "ddp"]
+    # "ddpsimple" = SimpleDistributedPerLayerOptimizer (per-layer clipping under DDP, MRO DPPerLayerOptimizer → DistributedDPOptimizer):
+    # the rank-0 gate of DistributedDPOptimizer.add_noise must survive the multiple inheritance (seeded C04-g)
+    classes = ["flat", "flat", "perlayer", "ghost", "ddp", "ddpsimple", "flat", "perlayer", "ddp", "ddpsimple"]
     cases = []
     for i in range(ctx.n(80, 1200)):
         cls = classes[i % len(classes)]
         sigma = ctx.rng.choice([0.0, 0.5, 1.0, 1.3, 2.0])
         secure = ctx.rng.random() < 0.4
         clip = ctx.rng.choice([0.5, 1.0, 3.0])
-        rank = ctx.rng.choice([0, 0, 1, 2]) if cls == "ddp" else 0
+        rank = ctx.rng.choice([0, 0, 1, 2]) if cls in ("ddp", "ddpsimple") else 0
         torch.manual_seed(ctx.rng.randrange(1 << 30))
         model, x = build(ctx.rng)
         if cls == "ghost" and any(isinstance(m, (nn.Conv1d,)) for m in model.modules()):
             cls = "flat"
         nparams = len([p for p in model.parameters() if p.requires_grad])
-        clips = [ctx.rng.choice([0.5, 1.0, 2.0]) for _ in range(nparams)] if cls == "perlayer" else clip
+        clips = [ctx.rng.choice([0.5, 1.0, 2.0]) for _ in range(nparams)] if cls in ("perlayer", "ddpsimple") else clip
         cases.append(dict(cls=cls, sigma=sigma, secure=secure, clip=clips, rank=rank, model=model, x=x))
     lines = []
     for c in cases:
         shapes = [tuple(p.shape) for p in c["model"].parameters() if p.requires_grad]
-        if c["cls"] == "perlayer":
+        if c["cls"] in ("perlayer", "ddpsimple"):
             cl = float(torch.norm(torch.Tensor(c["clip"]), p=2).item())
         else:
             cl = c["clip"]
         c["eff_clip"], c["shapes"] = cl, shapes
-        sig = c["sigma"] if not (c["cls"] == "ddp" and c["rank"] != 0) else 0.0   # non-zero ranks add no noise
+        sig = c["sigma"] if not (c["cls"] in ("ddp", "ddpsimple") and c["rank"] != 0) else 0.0   # non-zero ranks add no noise
         lines.append(f"reqs {f2h(sig)} {f2h(cl)} {int(c['secure'])} {len(shapes)} " + " ".join(f"{len(s)} " + " ".join(map(str, s)) for s in shapes))
     replies = ctx.lean_driver("C04", lines)
     gen = torch.Generator().manual_seed(7)
@@ -192,12 +195,12 @@ def request_cases(ctx):
         ctx.case(("req", c["cls"], c["sigma"], c["secure"], str(c["clip"]), c["rank"], tuple(c["shapes"])), nontrivial=c["sigma"] != 0 and len(c["shapes"]) >= 2, sample=desc,
                  kind=f"req:{c['cls']}/{'secure' if c['secure'] else 'plain'}" + ("/sigma0" if c["sigma"] == 0 else ""))
         ok = impl == rep
-        if not ok and c["cls"] == "perlayer":   # float32 joint bound: tolerance on std
+        if not ok and c["cls"] in ("perlayer", "ddpsimple"):   # float32 joint bound: tolerance on std
             a, b = impl.split(), rep.split()
             ok = len(a) == len(b) and all(x.split(":")[1] == y.split(":")[1] and core.close(h2f(x.split(":")[0]), h2f(y.split(":")[0]), 1e-6) for x, y in zip(a, b))
         # property oracle on the real objects
         res = None
-        silent = c["cls"] == "ddp" and c["rank"] != 0
+        silent = c["cls"] in ("ddp", "ddpsimple") and c["rank"] != 0
         std_want = 0.0 if silent else c["sigma"] * c["eff_clip"]
         for (std, size, g) in calls:
             if not core.close(std, std_want, 1e-6):
